@@ -33,7 +33,7 @@ func TestC18(t *testing.T) {
 		},
 		NCases: func(tier string) int {
 			if tier == "thorough" {
-				return 6000
+				return 40000
 			}
 			return 480
 		},
